@@ -1,29 +1,290 @@
-//! C02 probe (temporary skeleton): compile a source, scan hex data, print matching rules.
+//! C02: verdicts of generated rule sets on generated buffers, written as Coq
+//! cases for coq/Cond/Check.v (the documented meaning of conditions).
+//!
+//! c02 --seed S --n N --out DIR [--depth D]     generate cases
+//! c02 --replay FILE.json                       re-run one recorded case on the implementation
+#[path = "../cond_gen.rs"]
+mod cond_gen;
+use cond_gen::*;
 use verif_harness::util::*;
-use std::panic::AssertUnwindSafe;
+use std::path::Path;
 
-fn main() {
-    let args: Vec<String> = std::env::args().skip(1).collect();
-    quiet_panics();
-    let src = std::fs::read_to_string(arg_val(&args, "--src").unwrap()).unwrap();
-    let data = unhex(&arg_val(&args, "--hex").unwrap_or_default());
-    let r = catch(AssertUnwindSafe(|| {
-        let mut c = yara_x::Compiler::new();
-        c.define_global("gi", 7i64).unwrap();
-        c.define_global("gb", true).unwrap();
-        c.define_global("gs", "Hello").unwrap();
-        for part in src.split("//NS") {
-            if let Some(rest) = part.strip_prefix(' ') {
-                let (ns, body) = rest.split_once('\n').unwrap();
-                c.new_namespace(ns.trim());
-                if let Err(e) = c.add_source(body) { return format!("ERR {}", e); }
-            } else if let Err(e) = c.add_source(part) { return format!("ERR {}", e); }
+fn bx(e: E) -> Box<E> { Box::new(e) }
+
+struct Case { rules: Vec<RuleSpec>, data: Vec<u8>, globals: Vec<GV>, compile_globals: Vec<GV>, per_rule: bool, stream: Stream }
+
+fn unique_texts(rng: &mut Rng, n: usize) -> Vec<Vec<u8>> {
+    let mut v: Vec<Vec<u8>> = vec![];
+    while v.len() < n { let t = gen_pattern_text(rng); if !v.contains(&t) { v.push(t); } }
+    v
+}
+
+/// finding 10: a constant + - * chain that the compiler folds through f64
+fn fold_trigger(g: &mut Gen) -> E {
+    let big: [i64; 10] = [(1 << 53) + 1, (1 << 53) + 3, (1 << 54) + 2, i64::MAX, i64::MAX - 1, -i64::MAX, (1 << 62) + 1, 3037000500, (1 << 53) - 1, 6074001001];
+    for _ in 0..50 {
+        let o = *g.rng.pick(&[Op::Add, Op::Sub, Op::Mul]);
+        let a = *g.rng.pick(&big);
+        let b = if g.rng.chance(1, 2) { *g.rng.pick(&big) } else { g.rng.range(1, 5) };
+        let mut e = E::Arith(o, bx(E::Int(a)), bx(E::Int(b)));
+        if g.rng.chance(1, 3) { let o2 = *g.rng.pick(&[Op::Add, Op::Sub]); e = E::Arith(o2, bx(e), bx(E::Int(g.rng.range(1, 3)))); }
+        let fl = fold_flags_of(&e, &vec![]);
+        if !fl.inexact || fl.out_of_range { continue; }
+        // the value exact 64-bit arithmetic gives
+        fn exact(e: &E) -> i64 { match e { E::Int(z) => *z, E::Arith(o, a, b) => arith_i64(*o, exact(a), exact(b)).unwrap(), _ => unreachable!() } }
+        let x = exact(&e);
+        let rhs = if x == i64::MIN || g.rng.chance(1, 4) { E::Int(0) } else { E::Int(x) };
+        let c = *g.rng.pick(&[Cmp::Eq, Cmp::Ne, Cmp::Lt, Cmp::Ge]);
+        return E::Cmp(c, bx(e), bx(rhs));
+    }
+    E::Cmp(Cmp::Eq, bx(E::Arith(Op::Add, bx(E::Int((1 << 53) + 1)), bx(E::Int(1)))), bx(E::Int((1 << 53) + 2)))
+}
+
+/// findings 6/11: `N of <set>` whose N is 0 (constant or at run time)
+fn of_zero_trigger(g: &mut Gen) -> E {
+    let n = g.npats;
+    let (s, syn) = if g.rng.chance(1, 2) { ((0..n).collect::<Vec<_>>(), SetSyn::Them) } else {
+        let mut s: Vec<usize> = (0..n).filter(|_| g.rng.chance(2, 3)).collect();
+        if s.is_empty() { s.push(0); }
+        (s, SetSyn::List(g.rng.next()))
+    };
+    let q = match g.rng.below(3) {
+        0 => E::Int(0),
+        1 => E::Arith(Op::Sub, bx(E::Filesize), bx(E::Int(g.fsize))),
+        _ => { let p = P::Id(g.rng.below(n as u64) as usize); E::Arith(Op::Sub, bx(E::Count(p, None)), bx(E::Count(p, None))) }
+    };
+    E::Of(Q::Expr(bx(q)), s, syn, A::None)
+}
+
+/// the call to search_for_patterns is emitted once per and/or operand list, at the first
+/// pattern operation in emission order; here that site is skipped at run time (an undefined
+/// value or an empty range comes first) and a later pattern operation reads no matches
+fn lazy_trigger(g: &mut Gen) -> E {
+    let n = g.npats as u64;
+    let p = P::Id(g.rng.below(n) as usize);
+    let p2 = P::Id(g.rng.below(n) as usize);
+    let undef = E::Read(IntKind { bytes: 1, signed: false, be: false }, bx(E::Arith(Op::Add, bx(E::Filesize), bx(E::Int(g.rng.range(0, 4))))));
+    let site = if g.rng.chance(1, 2) { E::Count(p, None) } else { E::Offset(p, None) };
+    let first = match g.rng.below(3) {
+        0 => E::Cmp(*g.rng.pick(&[Cmp::Gt, Cmp::Eq, Cmp::Le]), bx(undef), bx(site)),
+        1 => E::ForRange(Q::Expr(bx(E::Arith(Op::Add, bx(site), bx(E::Int(1))))), 0, bx(E::Int(3)), bx(E::Arith(Op::Sub, bx(E::Filesize), bx(E::Int(g.fsize)))), bx(E::Bool(true))),
+        _ => E::OfB(Q::None, vec![E::Bool(true), E::Cmp(Cmp::Ge, bx(site), bx(E::Int(0)))]),
+    };
+    let second = match g.rng.below(3) { 0 => E::Pat(p2, A::None), 1 => E::Cmp(Cmp::Gt, bx(E::Count(p2, None)), bx(E::Int(0))), _ => E::Of(Q::Any, (0..g.npats).collect(), SetSyn::Them, A::None) };
+    E::Or(bx(first), bx(second))
+}
+
+/// more than 64 variable slots, some of them holding undefined values
+fn deep_trigger(g: &mut Gen, target: usize) -> E {
+    if g.slots >= target { return g.gen_bool(2); }
+    match g.rng.below(6) {
+        0 | 1 | 2 => {
+            // a `with` with many declarations
+            let n = 1 + g.rng.below(24) as usize;
+            let mut decls = vec![]; let mut infos = vec![];
+            for _ in 0..n {
+                let x = g.next_var; g.next_var += 1;
+                let e = if g.rng.chance(1, 4) { E::Read(IntKind { bytes: 1, signed: false, be: false }, bx(E::Arith(Op::Add, bx(E::Filesize), bx(E::Int(g.rng.range(0, 5)))))) }
+                        else { E::Arith(Op::Add, bx(E::Filesize), bx(E::Int(g.rng.range(0, 50)))) };
+                infos.push(VarInfo { name: x, ty: T::Int, cval: None });
+                decls.push((x, e));
+            }
+            g.scope.extend(infos); g.slots += n;
+            let b = deep_trigger(g, target);
+            g.slots -= n; let l = g.scope.len() - n; g.scope.truncate(l);
+            E::With(decls, bx(b))
         }
-        let rules = c.build();
-        let mut s = yara_x::Scanner::new(&rules);
-        let res = s.scan(&data).unwrap();
-        let v: Vec<String> = res.matching_rules().include_private(true).map(|r| format!("{}:{}", r.namespace(), r.identifier())).collect();
-        format!("MATCH {:?}", v)
-    }));
-    println!("{:?}", r);
+        3 => {
+            let x = g.next_var; g.next_var += 1;
+            let lo = g.rng.range(0, 3);
+            g.scope.push(VarInfo { name: x, ty: T::Int, cval: None }); g.slots += 7;
+            let b = deep_trigger(g, target);
+            g.slots -= 7; g.scope.pop();
+            let q = *g.rng.pick(&[0, 1, 2]);
+            E::ForRange(match q { 0 => Q::Any, 1 => Q::All, _ => Q::Expr(bx(E::Int(1))) }, x, bx(E::Int(lo)), bx(E::Int(lo + g.rng.range(0, 2))), bx(b))
+        }
+        4 => {
+            let x = g.next_var; g.next_var += 1;
+            let items = vec![E::Int(g.rng.range(0, 5)), E::Read(IntKind { bytes: 1, signed: false, be: false }, bx(E::Arith(Op::Add, bx(E::Filesize), bx(E::Int(1))))), E::Filesize];
+            g.scope.push(VarInfo { name: x, ty: T::Int, cval: None }); g.slots += 7;
+            let b = deep_trigger(g, target);
+            g.slots -= 7; g.scope.pop();
+            E::ForTuple(if g.rng.chance(1, 2) { Q::Any } else { Q::Expr(bx(E::Int(2))) }, x, items, bx(b))
+        }
+        _ => {
+            g.slots += 5;
+            let b = deep_trigger(g, target);
+            g.slots -= 5;
+            E::OfB(Q::Any, vec![E::Bool(false), b])
+        }
+    }
+}
+
+fn gen_case(rng: &mut Rng, stream: Stream, depth: u32) -> Case {
+    let big = rng.chance(1, 12);
+    let n_rules = if big { 9 + rng.below(16) as usize } else { 1 + rng.below(5) as usize };
+    let n_ns = 1 + rng.below(3) as usize;
+    let pool_size = if stream == Stream::OfZero { 6 * n_rules.max(2) } else { 3 + rng.below(6) as usize };
+    let pool = unique_texts(rng, pool_size);
+    let mut pool_next = 0usize;
+    let data = gen_data(rng, &pool);
+    let globals = gen_globals(rng);
+    let compile_globals = if rng.chance(1, 2) { globals.clone() } else { gen_globals(rng) };
+    let special_rule = if stream == Stream::Lazy { 0 } else { rng.below(n_rules as u64) as usize };
+    let mut rules: Vec<RuleSpec> = vec![];
+    let mut ns = 0usize;
+    for i in 0..n_rules {
+        if i > 0 && ns + 1 < n_ns && rng.chance(1, 3) { ns += 1; }
+        let global = rng.chance(1, 8);
+        let private = rng.chance(1, 5);
+        let special = stream != Stream::Main && i == special_rule;
+        let npats = if special && stream == Stream::OfZero { 2 + rng.below(4) as usize } else if special && stream == Stream::Lazy { 1 + rng.below(3) as usize } else if rng.chance(1, 6) { 0 } else { 1 + rng.below(4) as usize };
+        let pats: Vec<Vec<u8>> = (0..npats).map(|_| if stream == Stream::OfZero { pool_next += 1; pool[pool_next - 1].clone() } else { rng.pick(&pool).clone() }).collect();
+        let refs: Vec<usize> = (0..i).filter(|j| rules[*j].ns == ns && (!global || rules[*j].global)).collect();
+        let mut g = Gen { rng, npats, fsize: data.len() as i64, scope: vec![], for_of: 0, refs, next_var: 0, slots: 0,
+                          max_slots: 58, budget: 30 + 10 * depth as i32, stream: if special { stream } else { Stream::Main }, zero_of: special && stream == Stream::OfZero };
+        let d = if big { depth.min(2) } else { depth };
+        let cond = if !special { g.gen_bool(d) } else {
+            let t = match stream {
+                Stream::Fold => fold_trigger(&mut g),
+                Stream::OfZero => of_zero_trigger(&mut g),
+                Stream::Lazy => lazy_trigger(&mut g),
+                Stream::Deep => { g.max_slots = 100; let target = 65 + g.rng.below(14) as usize; deep_trigger(&mut g, target) }
+                Stream::Main => unreachable!(),
+            };
+            if stream == Stream::Deep || stream == Stream::Lazy { t } else {
+                match g.rng.below(5) {
+                    0 => E::Not(bx(t)),
+                    1 => { let o = g.gen_bool(1); E::And(bx(t), bx(o)) }
+                    2 => { let o = g.gen_bool(1); E::Or(bx(o), bx(t)) }
+                    _ => t,
+                }
+            }
+        };
+        rules.push(RuleSpec { ns, global, private, pats, cond });
+    }
+    Case { rules, data, globals, compile_globals, per_rule: rng.chance(1, 2), stream }
+}
+
+fn corpus() -> Vec<Case> {
+    let g0 = vec![GV::I(7), GV::I(-1), GV::B(true), GV::B(false), GV::S(b"Hello".to_vec()), GV::S(b"".to_vec())];
+    let mk = |rules: Vec<RuleSpec>, data: &[u8], stream| Case { rules, data: data.to_vec(), globals: g0.clone(), compile_globals: g0.clone(), per_rule: true, stream };
+    let r = |ns, global, private, pats: Vec<&[u8]>, cond| RuleSpec { ns, global, private, pats: pats.into_iter().map(|p| p.to_vec()).collect(), cond };
+    let undef = || E::Read(IntKind { bytes: 1, signed: false, be: false }, bx(E::Arith(Op::Add, bx(E::Filesize), bx(E::Int(5)))));
+    vec![
+        // finding 10
+        mk(vec![r(0, false, false, vec![], E::Cmp(Cmp::Eq, bx(E::Arith(Op::Add, bx(E::Int(9007199254740993)), bx(E::Int(1)))), bx(E::Int(9007199254740994))))], b"abc", Stream::Fold),
+        mk(vec![r(0, false, false, vec![], E::Cmp(Cmp::Lt, bx(E::Arith(Op::Add, bx(E::Int(i64::MAX)), bx(E::Int(1)))), bx(E::Int(0))))], b"abc", Stream::Fold),
+        // finding 11
+        mk(vec![r(0, false, false, vec![b"abc", b"zzz"], E::Of(Q::Expr(bx(E::Int(0))), vec![0, 1], SetSyn::List(1), A::None))], b"abc", Stream::OfZero),
+        // undefined-flag aliasing: 65 declarations, v8 undefined, v64 defined
+        mk(vec![r(0, false, false, vec![], E::With((0..65).map(|i| (i, if i == 8 { undef() } else { E::Arith(Op::Add, bx(E::Filesize), bx(E::Int(i as i64))) })).collect(), bx(E::Defined(bx(E::Var(8))))))], b"abc", Stream::Deep),
+        // lazy pattern search skipped by an undefined value
+        mk(vec![r(0, false, false, vec![b"BAaa"], E::Or(bx(E::Cmp(Cmp::Gt, bx(undef()), bx(E::Count(P::Id(0), None)))), bx(E::Pat(P::Id(0), A::None))))], b"xxBAaa", Stream::Lazy),
+        // global suppression / private / references across a 10-rule chunk boundary
+        mk((0..12).map(|i| r(0, i == 11, i % 3 == 0, vec![], if i == 0 { E::Bool(true) } else if i == 11 { E::Cmp(Cmp::Gt, bx(E::Filesize), bx(E::Int(100))) } else { E::Rule(i - 1) })).collect(), b"abc", Stream::Main),
+        // undefined handling
+        mk(vec![r(0, false, false, vec![b"abc"], E::Or(bx(E::Cmp(Cmp::Eq, bx(undef()), bx(E::Int(1)))), bx(E::Pat(P::Id(0), A::None)))),
+                r(0, false, false, vec![], E::Not(bx(E::Cmp(Cmp::Eq, bx(undef()), bx(E::Int(1)))))),
+                r(0, false, false, vec![], E::Not(bx(E::Defined(bx(undef())))))], b"xxabc", Stream::Main),
+    ]
+}
+
+fn main() { let args: Vec<String> = std::env::args().skip(1).collect(); std::process::exit(run(&args)); }
+
+fn replay(path: &str) -> i32 {
+    let d: serde_json::Value = serde_json::from_str(&std::fs::read_to_string(path).unwrap()).unwrap();
+    let c = if d.get("case").is_some() { &d["case"] } else { &d };
+    let src = c["source"].as_str().unwrap();
+    let data = unhex(c["data_hex"].as_str().unwrap());
+    let gl = |k: &str| -> Vec<GV> { GLOBALS.iter().map(|(n, t)| { let v = &c[k][*n]; match t { T::Int => GV::I(v.as_i64().unwrap()), T::Bool => GV::B(v.as_bool().unwrap()), T::Str => GV::S(v.as_str().unwrap().as_bytes().to_vec()) } }).collect() };
+    let mut sources: Vec<(String, String)> = vec![];
+    for part in src.split("//NS ").skip(1) { let (ns, body) = part.split_once('\n').unwrap(); sources.push((ns.trim().to_string(), body.to_string())); }
+    let out = run_impl(&sources, &gl("compile_globals"), &gl("globals"), &data);
+    println!("implementation now: {:?}", out);
+    println!("recorded: all={} public={}", c["observed_all"], c["observed_pub"]);
+    println!("expected by the documented meaning: see `explain` / the model verdicts in the replay file");
+    0
+}
+
+pub fn run(args: &[String]) -> i32 {
+    quiet_panics();
+    if let Some(p) = arg_val(args, "--replay") { return replay(&p); }
+    let seed = arg_u64(args, "--seed", 1);
+    let n = arg_u64(args, "--n", 600) as usize;
+    let depth = arg_u64(args, "--depth", 4) as u32;
+    let out = arg_val(args, "--out").expect("--out");
+    let prelude = "From Coq Require Import List NArith ZArith Bool.\nFrom YV Require Import Cond.Syntax Cond.Sem Cond.RuleSet Cond.Check.\nImport ListNotations.\nOpen Scope Z_scope.\n";
+    let mut shards = Shards::new(Path::new(&out), prelude, 100);
+    let mut rng = Rng::new(seed);
+    let mut stats = Stats::default();
+    let mut distinct = std::collections::HashSet::new();
+    let mut samples = vec![];
+    let mut corpus = corpus();
+    let (mut n_const, mut n_conds) = (0u64, 0u64);
+    let mut rejected: Vec<String> = vec![];
+    let mut panics: Vec<String> = vec![];
+    let mut attempts = 0usize;
+    while shards.total < n {
+        attempts += 1;
+        if attempts > 3 * n + 100 { eprintln!("c02: too many rejected/panicking cases"); break; }
+        let case = if !corpus.is_empty() { corpus.remove(0) } else {
+            let stream = match rng.below(100) { 0..=81 => Stream::Main, 82..=85 => Stream::Fold, 86..=90 => Stream::OfZero, 91..=94 => Stream::Lazy, _ => Stream::Deep };
+            let d = if rng.chance(1, 10) { depth + 2 } else { 1 + rng.below(depth as u64) as u32 };
+            gen_case(&mut rng, stream, d)
+        };
+        // Cedar's lesson: cap the share of constant conditions
+        let consts = case.rules.iter().filter(|r| is_constant(&r.cond)).count() as u64;
+        if case.stream == Stream::Main && consts > 0 && (n_const + consts) * 100 > 15 * (n_conds + case.rules.len() as u64 + 20) { stats.inc("regenerated_constant_condition"); continue; }
+        let sources = sources_of(&case.rules, case.per_rule);
+        let outcome = run_impl(&sources, &case.compile_globals, &case.globals, &case.data);
+        let src = full_source(&case.rules);
+        let (all, public) = match outcome {
+            Outcome::Rejected(e) => { stats.inc("rejected_by_compiler"); if rejected.len() < 5 { rejected.push(format!("{}\n{}", e, src)); } continue; }
+            Outcome::Panic(p) => { stats.inc("impl_panic_excluded(C05)"); if panics.len() < 5 { panics.push(format!("{} :: {}", p, src.replace('\n', " "))); } continue; }
+            Outcome::Ok { all, public } => (all, public),
+        };
+        // second observation, used only to classify disagreements: the same rule set behind a
+        // rule that forces the pattern search
+        let (warm_all, warm_pub) = match run_impl(&with_warmup(&sources), &case.compile_globals, &case.globals, &case.data) {
+            Outcome::Ok { all, public } => (all, public),
+            other => { stats.inc("warmup_run_failed"); eprintln!("c02: warm-up run failed: {:?}", other); (all.clone(), public.clone()) }
+        };
+        if warm_all != all { stats.inc("verdicts_change_when_search_is_forced"); }
+        n_const += consts; n_conds += case.rules.len() as u64;
+        stats.inc("rule_sets"); stats.add("rules", case.rules.len() as u64); stats.add("constant_conditions", consts);
+        stats.inc(&format!("stream_{}", case.stream.name()));
+        stats.add("matching_rules", all.len() as u64);
+        if case.rules.iter().any(|r| r.global) { stats.inc("has_global_rule"); }
+        if case.rules.iter().any(|r| r.private) { stats.inc("has_private_rule"); }
+        if case.rules.len() > 10 { stats.inc("more_than_10_rules"); }
+        if case.data.is_empty() { stats.inc("empty_buffer"); }
+        let mut feat = std::collections::BTreeSet::new();
+        for r in &case.rules {
+            walk(&r.cond, &mut |e| { feat.insert(match e {
+                E::Of(..) => "of", E::OfB(..) => "of_bool_tuple", E::ForOf(..) => "for_of", E::ForRange(..) => "for_in_range", E::ForTuple(..) => "for_in_tuple",
+                E::With(..) => "with", E::Rule(_) => "rule_reference", E::Read(..) => "uintN", E::Defined(_) => "defined", E::StrOp(..) => "string_op",
+                E::Pat(_, A::At(_)) => "at", E::Pat(_, A::In(..)) => "in", E::Count(_, Some(_)) => "count_in", E::Offset(..) => "offset", E::Length(..) => "length",
+                E::Arith(Op::Div | Op::Mod, ..) => "div_mod", E::Arith(Op::Shl | Op::Shr, ..) => "shift", E::Global(_) => "global_var", _ => "" }); });
+            if var_depth(&r.cond) >= 65 { feat.insert("more_than_64_variables"); }
+            if size(&r.cond) >= 5 { distinct.insert(rule_source(0, r)); }
+        }
+        for f in feat { if !f.is_empty() { stats.inc(&format!("uses_{}", f)); } }
+        let nl = |v: &Vec<usize>| coq_list(v, |i| format!("{}%nat", i));
+        let coq = format!("mkCase {} {} {} {} {} {} {}", coq_list(&case.data, |b| format!("{}", b)), coq_list(&case.globals, gv_coq),
+            coq_list(&case.rules, rule_coq), nl(&all), nl(&public), nl(&warm_all), nl(&warm_pub));
+        let replay = format!("{{\"index\":{},\"stream\":{},\"source\":{},\"data_hex\":\"{}\",\"globals\":{},\"compile_globals\":{},\"observed_all\":{:?},\"observed_pub\":{:?},\"observed_with_forced_search\":{:?},\"coq\":{}}}",
+            shards.total, json_str(case.stream.name()), json_str(&src), hex(&case.data), gv_json(&case.globals), gv_json(&case.compile_globals), all, public, warm_all, json_str(&coq));
+        if samples.len() < 3 && case.rules.len() >= 2 && case.stream == Stream::Main { samples.push(format!("{{\"source\":{},\"data_hex\":\"{}\",\"matching\":{:?}}}", json_str(&src), hex(&case.data), all)); }
+        shards.push(coq, replay);
+    }
+    shards.flush();
+    for r in &rejected { eprintln!("c02: REJECTED by the compiler: {}", r); }
+    for p in &panics { eprintln!("c02: implementation panicked (excluded, property C05): {}", p); }
+    let rej = stats.0.get("rejected_by_compiler").copied().unwrap_or(0);
+    if rej * 20 > shards.total as u64 + 20 { eprintln!("c02: generator produces too many rejected sources ({rej})"); return 2; }
+    if shards.total < n { return 2; }
+    println!("{{\"evaluations\":{},\"distinct_nontrivial\":{},\"shards\":{},\"distribution\":{},\"samples\":[{}],\"panic_samples\":{}}}",
+        shards.total, distinct.len(), shards.shard_count, stats.json(), samples.join(","), serde_json::to_string(&panics).unwrap());
+    0
 }
